@@ -33,6 +33,7 @@ def run(ctx):
                 rr.r_split_arm(ctx, tv)
                 rr.r_seed_roots(ctx, tv)
     sr.r_random_zero(ctx)
+    sr.r_routed_by_side(ctx)
     # "every stored vector sits on its own side of every plane above it" is a statement about the forest the writer maintains:
     # an overwritten vector must leave its old position (removal pass, C01) and the overwrite must be seen by the next build
     # (updated mark, C06).  These premises are re-evaluated here rather than assumed.
